@@ -712,6 +712,39 @@ def rule_e4_guard(chk: Check, ix: Index):
     chk.units["guarded_literal_additions"] = n_sites
 
 
+def rule_e9(chk: Check, ix: Index, rule_id: str = "E9-error-arity"):
+    """SyntaxError (and its subclasses) takes `(message, details)` where details has 4 fields (file, line, column, text) or 6 (plus
+    end line, end column); any other length makes the *constructor* raise TypeError, which escapes instead of the SyntaxError."""
+    kinds = ("SyntaxError", "IndentationError", "TabError")
+    n = 0
+    for q, f in sorted(ix.funcs.items()):
+        if f.rel not in (repo.SUBHEADER, repo.TOKENIZER, repo.TOKENIZE):
+            continue
+        sizes: dict[str, Optional[int]] = {}
+        for st in sorted((x for x in own_nodes(f.node) if isinstance(x, ast.stmt)), key=lambda x: (x.lineno, x.col_offset)):
+            if isinstance(st, ast.Assign) and len(st.targets) == 1 and isinstance(st.targets[0], ast.Name):
+                sizes[st.targets[0].id] = len(st.value.elts) if isinstance(st.value, ast.Tuple) and st.targets[0].id not in sizes else None
+            elif isinstance(st, ast.AugAssign) and isinstance(st.target, ast.Name) and isinstance(st.op, ast.Add):
+                cur = sizes.get(st.target.id)
+                sizes[st.target.id] = cur + len(st.value.elts) if cur is not None and isinstance(st.value, ast.Tuple) else None
+        for c in own_nodes(f.node):
+            if not (isinstance(c, ast.Call) and norm_stmt(c.func) in kinds and len(c.args) == 2 and not c.keywords):
+                continue
+            d = c.args[1]
+            size = len(d.elts) if isinstance(d, ast.Tuple) and not any(isinstance(e, ast.Starred) for e in d.elts) else \
+                sizes.get(d.id) if isinstance(d, ast.Name) else None
+            n += 1
+            chk.count(rule_id)
+            if size is None:
+                chk.undecided(rule_id, f"{q}:{norm_stmt(c.func)}", f"{f.rel}:{c.lineno}", "the number of detail fields is not visible")
+                continue
+            chk.require(size in (4, 6), rule_id, f"{q}:{norm_stmt(c.func)}", f"{f.rel}:{c.lineno}",
+                        f"`{norm_stmt(c.func)}` is built with {size} detail fields; the constructor accepts 4 or 6 and raises TypeError "
+                        f"('end_offset must be provided when end_lineno is provided') for anything else — a TypeError escapes instead of "
+                        f"the syntax error")
+    chk.floor(rule_id, 2)
+
+
 def rule_e8(chk: Check, ix: Index):
     """E8: builtin conversions applied to text of the input (int(), float(), complex(), chr(), bytes.fromhex, ...) raise
     ValueError/OverflowError on inputs the tokenizer accepts (a 5000-digit literal exceeds the int<->str limit); such a call must
@@ -777,6 +810,7 @@ def run(chk: Check):
     rule_e6(chk, ix)
     rule_e4_guard(chk, ix)
     rule_e8(chk, ix)
+    rule_e9(chk, ix)
     from .c12 import rule_z4
     rule_z4(chk, ix)   # the file is opened only when there is one (an empty source must still end in SyntaxError)
     tr.feed(chk, {k: "E7-action-type-hazard" for k in (
